@@ -349,5 +349,7 @@ import fam_frame, fam_socks, fam_chain
 FAMILY["C09"] = fam_frame.check
 FAMILY["C18"] = fam_socks.check
 FAMILY["C20"] = fam_chain.check
-import fam_keepalive
+import fam_keepalive, fam_wake, fam_tls
 FAMILY["C16"] = fam_keepalive.check
+FAMILY["C12"] = fam_wake.check
+FAMILY["C17"] = fam_tls.check
